@@ -5,6 +5,7 @@ from props.c20 import seg_table, _same_arrays
 
 ID = "C19"
 HEAP_SUMMARY = True      # end every program with the reference-level observation (BB.Model.Heap vs id() walk)
+UNIVERSAL_EVERY = 8      # every n-th case is a feature-rich random program (props/universal.py)
 LEAN_MODULE = "BB.Properties.C19"
 QUICK_N = 400
 THOROUGH_N = 4000
